@@ -322,6 +322,7 @@ int replay_main(const std::string &path, bool quiet) {
   } else c.out = Outcome::from_line(buf.substr(0, buf.find('\n')));
   unlink(errfile.c_str());
   Verdict v = verdict_of(c, p.prop);
+  if (c.crashed && WIFEXITED(st) && WEXITSTATUS(st) == 66) { v.bad = true; v.prop = p.prop; v.oracle = "tsan_report_free_running"; v.msg = "ThreadSanitizer reported a data race while the tasks ran on free-running threads"; }
   if (!c.crashed) printf("%s\n", c.out.to_line().c_str());
   if (v.bad) {
     bool same_class = want_oracle.empty() || want_oracle == v.oracle || (c.crashed && !quiet && want_oracle.rfind(std::string("crash:") + phase_name(c.phase), 0) == 0);
@@ -611,6 +612,7 @@ int check_main(Config cfg) {
           std::string l2; try { l2 = read_file(cfg.logs + "/C18.tsan.confirm.log"); } catch (...) {}
           if ((WIFEXITED(r2) && WEXITSTATUS(r2) == 66) || l2.find("WARNING: ThreadSanitizer") != std::string::npos || l2.find(" 1 ") != std::string::npos) again++;
         }
+        if (again == 2 && tsan_reports >= 2) { tsan_reports++; continue; }
         if (again == 2) {
           tsan_reports++;
           Plan p = gen_plan("C18", cfg.seed, lastB, 0, "thorough");
